@@ -308,6 +308,10 @@ func (tb *termBuilder) loadTerm(x *ssa.UnOp) *Term {
 	case *ssa.Alloc:
 		tb.indexStores(a.Parent())
 		sts := tb.stores[a]
+		if len(sts) == 1 {
+			// a variable assigned exactly once is that value
+			return tb.term(sts[0])
+		}
 		t := &Term{Op: "cell", Name: a.Comment}
 		for _, s := range sts {
 			t.Args = append(t.Args, tb.term(s))
